@@ -366,6 +366,23 @@ pub struct C16Cfg {
 }
 
 pub fn c16_case(env: &mut Env, rep: &mut Report, case_seed: u64, cfg: &C16Cfg) {
+    let before = rep.violations.len();
+    let _ = crate::http::trail_take();
+    c16_case_inner(env, rep, case_seed, cfg);
+    let trail = crate::http::trail_take();
+    if rep.violations.len() > before {
+        // the witness is the history, not its last response
+        let n = trail.len();
+        let shown: Vec<String> = trail.into_iter().skip(n.saturating_sub(60)).collect();
+        if let Some(v) = rep.violations.last_mut() {
+            if let Some(o) = v.2.as_object_mut() {
+                o.insert("history_tail".into(), json!(shown));
+            }
+        }
+    }
+}
+
+fn c16_case_inner(env: &mut Env, rep: &mut Report, case_seed: u64, cfg: &C16Cfg) {
     let mut rng = Rng::new(case_seed);
     let parsing = if rng.bool() { "Naive" } else { "Hybrid" };
     let negative = rng.chance(1, 6);
@@ -429,17 +446,24 @@ pub fn c16_case(env: &mut Env, rep: &mut Report, case_seed: u64, cfg: &C16Cfg) {
     let mut requested: BTreeSet<String> = BTreeSet::new();
     if rng.chance(1, 3) {
         let st = *rng.pick(&STRATEGIES);
-        if let Ok(r) = solve(&mut s, &name, st) {
-            rep.count(&format!("early_solve_status_{}", r.status), 1);
-            match r.status {
-                200 => {
-                    requested.insert(st.to_string());
+        match solve(&mut s, &name, st) {
+            Ok(r) => {
+                rep.count(&format!("early_solve_status_{}", r.status), 1);
+                match r.status {
+                    200 => {
+                        requested.insert(st.to_string());
+                    }
+                    400 | 409 => {}
+                    other => {
+                        rep.violation("early-solve-status", format!("solve before parse -> {} {}", other, r.text()), replay);
+                        return;
+                    }
                 }
-                400 | 409 => {}
-                other => {
-                    rep.violation("early-solve-status", format!("solve before parse -> {} {}", other, r.text()), replay);
-                    return;
-                }
+            }
+            Err(e) => {
+                // nothing is known about what the request did: the case cannot be judged
+                rep.inconclusive.push(e);
+                return;
             }
         }
     }
@@ -591,7 +615,14 @@ pub fn c16_case(env: &mut Env, rep: &mut Report, case_seed: u64, cfg: &C16Cfg) {
             match solve(&mut s, &name, st) {
                 Ok(r) => match r.status {
                     200 => {
-                        requested.insert(st.to_string());
+                        if !requested.insert(st.to_string()) {
+                            // the solve sent before the first poll was accepted too; its task had not registered
+                            // itself yet, or had ended but its result was not stored yet (seen: GET lists it as
+                            // running, PUT solve -> 200, GET shows the result of the first task while the second
+                            // runs): an accepted duplicate like the ones below, two tasks
+                            rep.count("solve_accepted_again_after_accepted_early_solve", 1);
+                            dups.insert(st.to_string());
+                        }
                         if maybe_requested.contains(st) {
                             // the reset request may have been carried out as well: possibly two tasks
                             dups.insert(st.to_string());
